@@ -42,18 +42,39 @@ Inductive kind : Set :=
 | KInternal (c : cexpr) (convert_by_default user_requested : bool)   (* internal_convert(f, ctx, ...)(...) *)
 | KScope (user_requested : bool)                 (* with FunctionScope(.., options): f(...) *)
 | KLambdaScope (user_requested : bool)           (* with_function_scope(lambda scope: f(...), .., options) *)
-| KToGraph (recursive : bool).                   (* to_graph(f, recursive)(...) *)
+| KToGraph (recursive : bool)                    (* to_graph(f, recursive)(...) *)
+| KArtifact.                                     (* autograph_artifact(f)(...), or an inner function handed out by converted
+                                                    code: carries autograph_info__, enters nothing *)
 
 Inductive tree : Set :=
-| Node (lbl : nat) (k : kind)
+| Node (lbl : nat) (k : kind)       (* k applied to the plain function f *)
        (dyn : bool)                 (* f is dynamic code (exec): malt never converts it *)
        (catches : bool)             (* f swallows exceptions of its children *)
        (raise_at : option nat)      (* f raises just before child number n (after the last one if n = #children) *)
-       (children : list tree).
+       (children : list tree)
+| Wrap (l : kind) (t : tree).       (* wrapper l applied to the callable t denotes (itself a wrapper's result or an
+                                       artifact): decorators stacked on decorators *)
+
+(* does the callable carry autograph_info__ ?  every wrapper of the API marks its result *)
+Definition is_art_kind (k : kind) : bool := match k with KPlain => false | _ => true end.
+Fixpoint art (t : tree) : bool :=
+  match t with
+  | Node _ k _ _ _ _ => is_art_kind k
+  | Wrap l t' => is_art_kind l || art t'
+  end.
+
+(* the trees the harness generates: a wrapper is only stacked on an artifact (Wrap l (Node KPlain ..) is written
+   Node l ..), to_graph is only applied to plain functions *)
+Fixpoint wf_tree (t : tree) : bool :=
+  match t with
+  | Node _ _ _ _ _ children => forallb wf_tree children
+  | Wrap l t' => art t' && wf_tree t' && match l with KToGraph _ | KPlain => false | _ => true end
+  end.
 
 Record obs : Set := mkobs {
   ob_lbl : nat; ob_pos : nat;
   ob_kind : kind; ob_dyn : bool;
+  ob_outer : list kind;             (* the wrappers stacked around this call, outermost first *)
   ob_arg : option ctx;              (* the context object passed to the wrapper, if any *)
   ob_call_status : status;          (* status current at the call site *)
   ob_urconv : bool;                 (* f runs converted, inside a FunctionScope with user_requested options *)
@@ -210,7 +231,7 @@ Definition invoke_convert (T : tables) (ur dyn : bool) (v : mval) (bodyf : bool 
 Definition invoke (T : tables) (k : kind) (dyn : bool) (bodyf : bool -> option ctx -> status -> M) : M := fun st =>
   let cs := cst (top_of (stk st)) in
   match k with
-  | KPlain => bodyf false None cs st
+  | KPlain | KArtifact => bodyf false None cs st
   | KDoNotConvert => exec_w T env0 (t_do_not_convert T) (bodyf false None cs) st
   | KUnspec => exec_w T env0 (t_unspecified T) (bodyf false None cs) st
   | KWith c =>
@@ -235,8 +256,41 @@ Definition invoke (T : tables) (k : kind) (dyn : bool) (bodyf : bool -> option c
                   (bodyf (t_to_graph_user_requested T) None cs) st
   end.
 
-Definition observe (lbl pos : nat) (k : kind) (dyn : bool) (arg : option ctx) (cs : status) (urconv : bool) (st : state) : state :=
-  log st (EvObs (mkobs lbl pos k dyn arg cs urconv (top_of (stk st)) (length (stk st)))).
+(* wrapper l applied to a callable that is already an artifact (art = true for every tree the harness
+   generates; see wf_tree): convert()/internal_convert never convert such a callable, they only enter their
+   context around the call *)
+Definition layer_dnc (T : tables) (artf : bool) (body : M) : M := fun st =>
+  if t_dnc_skips_art T && artf then body st else exec_w T env0 (t_do_not_convert T) body st.
+Definition layer_unspec (T : tables) (artf : bool) (body : M) : M := fun st =>
+  if t_unspec_skips_art T && artf then body st else exec_w T env0 (t_unspecified T) body st.
+Definition layer_convert (T : tables) (artf : bool) (v : mval) (body : M) : M := fun st =>
+  if t_convert_skips_art T && artf then body st else exec_w T (mkenv v false) (t_convert T) body st.
+
+Definition invoke_layer (T : tables) (l : kind) (artf : bool) (body : M) : M := fun st =>
+  match l with
+  | KPlain | KArtifact | KToGraph _ => body st
+  | KDoNotConvert => layer_dnc T artf body st
+  | KUnspec => layer_unspec T artf body st
+  | KWith c =>
+      let (x, st1) := eval_cexpr c st in
+      exec_w T (mkenv (VCtx x) false) (WWith WParam WBody) body st1
+  | KConvert _ _ MNull => layer_convert T artf VNull body st
+  | KConvert _ _ (MCtx c) =>
+      let (x, st1) := eval_cexpr c st in layer_convert T artf (VCtx x) body st1
+  | KInternal c cbd _ =>
+      let (x, st1) := eval_cexpr c st in
+      if t_internal_skips_art T && artf then body st1
+      else match t_internal T (cst x) cbd with
+           | FConvert => layer_convert T artf (VCtx x) body st1
+           | FDoNotConvert => layer_dnc T artf body st1
+           | FUnspec => layer_unspec T artf body st1
+           end
+  | KScope ur => exec_w T (mkenv VNull ur) (WWith WScope WBody) body st
+  | KLambdaScope ur => exec_w T (mkenv VNull ur) (t_with_function_scope T) body st
+  end.
+
+Definition observe (lbl pos : nat) (k : kind) (outer : list kind) (dyn : bool) (arg : option ctx) (cs : status) (urconv : bool) (st : state) : state :=
+  log st (EvObs (mkobs lbl pos k dyn outer arg cs urconv (top_of (stk st)) (length (stk st)))).
 
 Definition raises_here (r : option nat) (pos : nat) : bool :=
   match r with Some n => Nat.eqb n pos | None => false end.
@@ -244,10 +298,10 @@ Definition raises_here (r : option nat) (pos : nat) : bool :=
 (* the body of a node: `exec_child` runs one child *)
 Section Body.
   Variable exec_child : tree -> M.
-  Variables (lbl : nat) (k : kind) (dyn catches : bool) (r : option nat)
+  Variables (lbl : nat) (k : kind) (outer : list kind) (dyn catches : bool) (r : option nat)
             (arg : option ctx) (cs : status) (urconv : bool).
   Fixpoint run_body (pos : nat) (children : list tree) (st : state) {struct children} : outcome * state :=
-    let st1 := observe lbl pos k dyn arg cs urconv st in
+    let st1 := observe lbl pos k outer dyn arg cs urconv st in
     if raises_here r pos then (ORaise, st1)
     else match children with
          | [] => (ONorm, st1)
@@ -259,12 +313,15 @@ Section Body.
          end.
 End Body.
 
-Fixpoint exec (T : tables) (t : tree) {struct t} : M :=
+(* `outer`: the wrappers already passed on the way to t (outermost first) *)
+Fixpoint exec_in (T : tables) (outer : list kind) (t : tree) {struct t} : M :=
   match t with
   | Node lbl k dyn catches r children =>
       invoke T k dyn (fun urconv arg cs =>
-        run_body (exec T) lbl k dyn catches r arg cs urconv 0 children)
+        run_body (exec_in T []) lbl k outer dyn catches r arg cs urconv 0 children)
+  | Wrap l t' => invoke_layer T l (art t') (exec_in T (outer ++ [l]) t')
   end.
+Definition exec (T : tables) (t : tree) : M := exec_in T [] t.
 
 (* observations in chronological order *)
 Fixpoint obs_of (es : list event) : list obs :=
